@@ -582,6 +582,16 @@ func (sc *serverConn) handleStreams() {
 		return atomic.LoadInt32((*int32)(&sc.state)) == int32(connStateClosed)
 	}
 
+	// doneAfterGoAway reports whether the loop can stop right after it has sent
+	// a GOAWAY for a connection error: either nothing was promised, or what was
+	// promised has finished already. Otherwise the loop goes on until the last
+	// promised response is out. Going back to waiting for frames without asking
+	// kept the connection, and ServeConn with it, for as long as a silent peer
+	// cared to stay.
+	doneAfterGoAway := func() bool {
+		return atomic.LoadUint32(&sc.closeRef) == 0 || canCloseAfterGoAway()
+	}
+
 loop:
 	for {
 		releaseHandled()
@@ -735,6 +745,10 @@ loop:
 					// was refused.
 					if _, closed := closedStrms[fr.Stream()]; !closed && fr.Stream() > sc.lastID {
 						sc.writeGoAway(fr.Stream(), ProtocolError, "RST_STREAM on idle stream")
+
+						if doneAfterGoAway() {
+							break loop
+						}
 					}
 
 					continue
@@ -761,10 +775,19 @@ loop:
 
 						if !byUs {
 							sc.writeGoAway(fr.Stream(), StreamClosedError, "frame on closed stream")
+
+							if doneAfterGoAway() {
+								break loop
+							}
 						}
 					case FrameData:
 						if !byUs {
 							sc.writeGoAway(fr.Stream(), StreamClosedError, "frame on closed stream")
+
+							if doneAfterGoAway() {
+								break loop
+							}
+
 							break
 						}
 
@@ -774,6 +797,10 @@ loop:
 					default:
 						if !byUs {
 							sc.writeGoAway(fr.Stream(), StreamClosedError, "frame on closed stream")
+
+							if doneAfterGoAway() {
+								break loop
+							}
 						}
 					}
 
@@ -786,6 +813,11 @@ loop:
 				// stream that does not exist.
 				if fr.Stream() < sc.lastID {
 					sc.writeGoAway(fr.Stream(), ProtocolError, "stream ID is lower than the latest")
+
+					if doneAfterGoAway() {
+						break loop
+					}
+
 					continue
 				}
 
